@@ -171,7 +171,19 @@ class FinishedCheckOnFailure(Target):
                 staged.add(o)
             others.append(o)
         staged.add(comp)
-        this = Obj('controller', comp_lock=threading.RLock(), _start_sleeping=False, log=NULLLOG, comp_done=set(),
+        # the workflow graph (a REAL networkx graph): the other components of the stage may or may not consume the failed one
+        import networkx
+        graph = networkx.DiGraph()
+        for o in [comp] + others:
+            graph.add_node(o.specification.reference, stageIndex=1)
+        edges = c.choice('edges', 4)        # 0 none, 1 bad->o0, 2 bad->o0->o1, 3 bad->o0 and bad->o1
+        if edges >= 1:
+            graph.add_edge('stage1.bad', 'stage1.o0')
+        if edges == 2:
+            graph.add_edge('stage1.o0', 'stage1.o1')
+        if edges == 3:
+            graph.add_edge('stage1.bad', 'stage1.o1')
+        this = Obj('controller', comp_lock=threading.RLock(), _start_sleeping=False, log=NULLLOG, comp_done=set(), graph=graph,
                    _component_finished_while_sleeping=[], comp_condition_to_dowhile={}, comp_staged_in=staged,
                    currentStage=Obj('stage', index=1), stage=Extern('stage', lambda c: Obj('stage', index=1)),
                    cdb=None, stop_executing=False,
